@@ -235,6 +235,128 @@ theorem fwriterIn_reported (f : FuseW) (w : World) (hb : f.buffered = true) (hok
     simp only [fwriterIn]
     rw [derr e he]; rfl
 
+/-! ### a request that does not fit is refused and nothing happens -/
+
+theorem fcheckAvail_overflow {f : FuseW} {sz : Nat} (hok : f.ok) (hmode : f.buffered = true ∨ f.len = 0)
+    (h : f.cap - f.len < sz) : f.checkAvail sz = .error .invalidData := by
+  unfold FuseW.ok at hok
+  unfold FuseW.checkAvail FuseW.availableBytes
+  have h1 : ¬ ¬ (f.buffered = true ∨ f.len = 0) := by simp [hmode]
+  have h2 : ¬ f.len > f.cap := by omega
+  simp only [h1, h2, h, if_false, if_true]
+
+theorem fuse_overflow (f : FuseW) (w : World) (hok : f.ok) (hmode : f.buffered = true ∨ f.len = 0) :
+    (∀ data : Bytes, f.cap - f.len < data.length →
+        (FuseW.write f w data).res = .error .invalidData ∧ (FuseW.write f w data).f = f ∧ (FuseW.write f w data).w = w)
+    ∧ (∀ bufs : List Bytes, f.cap - f.len < bufs.flatten.length →
+        (FuseW.writeVectored f w bufs).res = .error .invalidData ∧ (FuseW.writeVectored f w bufs).f = f
+          ∧ (FuseW.writeVectored f w bufs).w = w)
+    ∧ (∀ src count at_, f.cap - f.len < count →
+        (FuseW.writeFrom f w src count at_).res = .error .invalidData ∧ (FuseW.writeFrom f w src count at_).f = f
+          ∧ (FuseW.writeFrom f w src count at_).w = w ∧ (FuseW.writeFrom f w src count at_).aux = src)
+    ∧ (∀ src count, f.cap - f.len < count →
+        (FuseW.writeAllFrom f w src count).res = .error .invalidData ∧ (FuseW.writeAllFrom f w src count).f = f
+          ∧ (FuseW.writeAllFrom f w src count).w = w ∧ (FuseW.writeAllFrom f w src count).aux = src) := by
+  refine ⟨?_, ?_, ?_, ?_⟩
+  · intro data h
+    have hc := fcheckAvail_overflow hok hmode h
+    unfold FuseW.write
+    rw [hc]; exact ⟨rfl, rfl, rfl⟩
+  · intro bufs h
+    have hsz : bufs.foldl (fun acc x => acc + x.length) 0 = bufs.flatten.length := by
+      rw [foldl_len_eq_flatten]; omega
+    have hc := fcheckAvail_overflow (sz := bufs.foldl (fun acc x => acc + x.length) 0) hok hmode (by rw [hsz]; exact h)
+    unfold FuseW.writeVectored
+    rw [hc]; exact ⟨rfl, rfl, rfl⟩
+  · intro src count at_ h
+    have hc := fcheckAvail_overflow hok hmode h
+    unfold FuseW.writeFrom
+    rw [hc]; exact ⟨rfl, rfl, rfl, rfl⟩
+  · intro src count h
+    have hc := fcheckAvail_overflow hok hmode h
+    unfold FuseW.writeAllFrom
+    rw [hc]; exact ⟨rfl, rfl, rfl, rfl⟩
+
+/-! ### an unbuffered (never split) writer sends each write straight to the descriptor -/
+
+theorem fwriteFrom_unbuf_record (f : FuseW) (w : World) (src : Script) (count : Nat) (at_ : Option Nat)
+    (hb : f.buffered = false) (n : Nat) (h : (FuseW.writeFrom f w src count at_).res = .ok n) :
+    (FuseW.writeFrom f w src count at_).w.fd
+      = w.fd ++ [readSeg (FuseW.writeFrom f w src count at_).w.mem ⟨f.region, f.base, n⟩] := by
+  obtain ⟨n0, _, _, ffd, _⟩ := readVectored_fok src w [⟨f.region, f.base + f.len, count⟩] at_
+  have hnb : ¬ (f.buffered = true) := by rw [hb]; simp
+  unfold FuseW.writeFrom at h ⊢
+  cases hc : f.checkAvail count with
+  | error e => cases h
+  | ok u =>
+    simp only at h ⊢
+    rcases hr : src.readVectored w [⟨f.region, f.base + f.len, count⟩] at_ with ⟨res, w1, s1⟩
+    rw [hr] at h ffd ⊢
+    simp only at ffd
+    cases res with
+    | error e => cases h
+    | ok cnt =>
+      simp only at h ⊢
+      rw [if_neg hnb] at h ⊢
+      simp only [Except.ok.injEq] at h
+      subst h
+      simp only [World.fdWrite, ffd]
+
+theorem fuse_unbuffered (f : FuseW) (w : World) (hb : f.buffered = false) (hl : f.len = 0) (hin : f.inMem w.mem) :
+    (∀ data : Bytes, data.length ≤ f.cap →
+        (FuseW.write f w data).res = .ok data.length ∧ (FuseW.write f w data).w.fd = w.fd ++ [data]
+          ∧ (FuseW.write f w data).w.mem = w.mem)
+    ∧ (∀ bufs : List Bytes, bufs ≠ [] → bufs.flatten.length ≤ f.cap →
+        (FuseW.writeVectored f w bufs).res = .ok bufs.flatten.length
+          ∧ (FuseW.writeVectored f w bufs).w.fd = (if bufs.flatten.isEmpty then w.fd else w.fd ++ [bufs.flatten])
+          ∧ (FuseW.writeVectored f w bufs).w.mem = w.mem)
+    ∧ (∀ src count at_ n, (FuseW.writeFrom f w src count at_).res = .ok n →
+        (FuseW.writeFrom f w src count at_).w.fd = w.fd ++ [patBytes src.seed (at_.getD src.pos) n]) := by
+  have hok : f.ok := by unfold FuseW.ok; omega
+  have hnb : ¬ (f.buffered = true) := by rw [hb]; simp
+  have hca : ∀ sz, sz ≤ f.cap → f.checkAvail sz = .ok () := by
+    intro sz hsz
+    unfold FuseW.checkAvail FuseW.availableBytes
+    have h1 : ¬ ¬ (f.buffered = true ∨ f.len = 0) := by simp [hl]
+    have h2 : ¬ f.len > f.cap := by omega
+    have h3 : ¬ sz > f.cap - f.len := by omega
+    simp only [h1, h2, h3, if_false]
+  refine ⟨?_, ?_, ?_⟩
+  · intro data hfit
+    unfold FuseW.write
+    rw [hca _ hfit]
+    simp only []
+    rw [if_neg hnb]
+    exact ⟨rfl, rfl, rfl⟩
+  · intro bufs hne hfit
+    have hsz : bufs.foldl (fun acc x => acc + x.length) 0 = bufs.flatten.length := by
+      rw [foldl_len_eq_flatten]; omega
+    have hfl : ∀ (l : List Bytes) (acc : Bytes), l.foldl (· ++ ·) acc = acc ++ l.flatten := by
+      intro l
+      induction l with
+      | nil => intro acc; simp
+      | cons d rest ih => intro acc; simp only [List.foldl, ih, List.flatten_cons, List.append_assoc]
+    have he : bufs.isEmpty = false := by cases bufs <;> simp_all
+    unfold FuseW.writeVectored
+    rw [hsz, hca _ hfit]
+    simp only []
+    rw [if_neg hnb]
+    simp only [he, Bool.false_eq_true, if_false, hfl, List.nil_append]
+    refine ⟨rfl, ?_, ?_⟩
+    · unfold World.fdWritev; split <;> simp_all
+    · unfold World.fdWritev; split <;> rfl
+  · intro src count at_ n hn
+    rw [fwriteFrom_unbuf_record f w src count at_ hb n hn]
+    obtain ⟨hs, hc, _, _, _, dok, _⟩ := fwriteFrom_fws f w src count at_ hok hin
+    have hd := dok n hn
+    rw [hd, hl, Nat.add_zero] at hc
+    have hfit := hs.fits
+    rw [hd, hl] at hfit
+    unfold FuseW.inMem at hin
+    have i1 : InMem (FuseW.writeFrom f w src count at_).w.mem (segAddrs ⟨f.region, f.base, n⟩) := by
+      intro a ha; rw [mem_segAddrs] at ha; rw [ha.1, hs.len]; simp only at ha ⊢; omega
+    rw [readSeg_eq_map _ _ i1, hc]
+
 /-- a 64-byte /dev/fuse buffer at offset 64 of region 2, one fresh writer, one reader over a
     request buffer in region 1 -/
 def exampleFuse : St :=
